@@ -51,7 +51,7 @@ func (ev *evaluator) list(ns []Node) {
 		case *Print:
 			v := ev.eval(n.E, n)
 			if !(v.K == KBool && v.S == "hidden") {
-				ev.w(v.Render())
+				ev.wv(v.Render(), n.Writer)
 			}
 		case *Let:
 			if !opened {
@@ -310,10 +310,13 @@ func (ev *evaluator) try(n *Try) {
 	}
 }
 
-// Eval runs the reference evaluator on the program.
-func Eval(p *Program) (res Result) {
+// Eval runs the reference evaluator on the program (no escaping).
+func Eval(p *Program) Result { return EvalWith(p, nil, nil) }
+
+// EvalWith runs the reference evaluator with the Set's escaper esc and the named SafeWriters.
+func EvalWith(p *Program, esc func(string) string, writers map[string]func(string) string) (res Result) {
 	p.Sources(p.Newline) // fills in the file and line of every action
-	ev := &evaluator{p: p, tables: map[string]map[string]*BlockDef{}}
+	ev := &evaluator{p: p, tables: map[string]map[string]*BlockDef{}, esc: esc, writers: writers}
 	main := p.File(p.Main)
 	root := map[string]Value{}
 	for k, v := range p.Vars {
